@@ -16,8 +16,8 @@ open GoImap.ClientFault
     of the literal; the caller sits in `Collect` -/
 def litCut (legacy : Bool) (f : Fault) : Config :=
   { kinds := [.fetch]
-    items := [.greet 37, .fetch 1 [.txt 32, .lit 5, .txt 3], .tagged 1 true 23 6]
-    prog := [.greetWait, .issue 1, .collect 1]
+    items := [.greet 37, .fetch 0 [.txt 32, .lit 5, .txt 3], .tagged 0 true 23 6]
+    prog := [.greetWait, .issue 0, .collect 0]
     k := 37 + 32 + 2, fault := f, legacyLit := legacy }
 
 /-- after `closeWithError` no command is pending -/
